@@ -10,7 +10,7 @@ PID = "C07"
 ALLOWED_AXIOMS = ["Classical_Prop.classic", "ClassicalDedekindReals.sig_forall_dec",
                   "ClassicalDedekindReals.sig_not_dec", "FunctionalExtensionality.functional_extensionality_dep"]
 PROFILES = ["debug"]
-SHARD_TIMEOUT = 150         # seconds; a hanging implementation becomes TIMEOUT lines, not a stalled check
+SHARD_TIMEOUT = {"quick": 150, "thorough": 900}   # seconds per implementation shard; a hang becomes TIMEOUT lines, not a stalled check
 CASES_PER_SHARD = 40      # sessions are expensive on the model: use all cores
 CORRESPONDENCE = ("Vm::eval error path (run.rs run_count error arm, mod.rs prepare_eval), Vm::last_stacktrace and the "
                   "sp/bp/stack-capacity hooks (wire 74) vs Model/Vm.v run_loop / eval, Model/WireVm.v state_text_all")
@@ -480,8 +480,6 @@ def oracle(case, impl_line):
                 return "registers: after %r the machine is left with sp=%d bp=%d (a later evaluation starts above dead frames)" % (
                     f[:60], sp, bp)
             failed = r.startswith("ERR")
-            if failed and frames is None and False:
-                return "trace: a failed evaluation has no stack trace"
             if prev is not None and prev[0] == f and prev[1] and failed and cap != prev[2]:
                 return "capacity: stack capacity changed from %d to %d across consecutive failures of %r" % (prev[2], cap, f[:60])
             prev = (f, failed, cap)
